@@ -43,10 +43,10 @@ fn api_identity(out: &mut Out, rng: &mut Rng, k: u64) {
         if a.public_key() != want_pk {
             out.violation("C10 public-key differs-from-rfc8032", &format!("seed {}: {} vs reference {}", hex(&seed), hex(&a.public_key()), hex(&want_pk)), desc.clone());
         }
-        if a.srv_value() != want_srv.as_slice() || LongTermKey::calc_srv_value(&want_pk) != want_srv {
-            out.violation("C10 srv-value differs", &format!("SRV {} vs SHA-512(0xff||pk)[0..32] {}", hex(a.srv_value()), hex(&want_srv)), desc.clone());
+        if a.srv_value()[..] != want_srv[..] || LongTermKey::calc_srv_value(&want_pk) != want_srv {
+            out.violation("C10 srv-value differs", &format!("SRV {} vs SHA-512(0xff||pk)[0..32] {}", hex(&a.srv_value()[..]), hex(&want_srv)), desc.clone());
         }
-        if a.public_key() != b.public_key() || a.srv_value() != b.srv_value() {
+        if a.public_key() != b.public_key() || a.srv_value()[..] != b.srv_value()[..] {
             out.violation("C10 identity not-deterministic", "two constructions from one seed differ", desc.clone());
         }
         // one online key certified for both protocols, in both orders, repeatedly: every
@@ -221,7 +221,7 @@ pub fn run_c10(ctx: &Ctx, out: &mut Out) {
             if a.public_key() != refk.public() {
                 out.violation("C10 public-key differs-from-rfc8032", "replayed", r.clone());
             }
-            if a.srv_value() != srv_value(&refk.public()).as_slice() {
+            if a.srv_value()[..] != srv_value(&refk.public())[..] {
                 out.violation("C10 srv-value differs", "replayed", r.clone());
             }
         } else {
